@@ -52,6 +52,22 @@ namespace random_utils {
   inline void override_seed(uint64_t s) {
     rand.seed(s);
   }
+
+#ifdef DATASKETCHES_VERIF
+  // Verification hook (compiled only with -DDATASKETCHES_VERIF): an installable source for every
+  // internal random choice. With no source installed the original engines are used.
+  struct verif_random_source {
+    virtual ~verif_random_source() {}
+    virtual bool bit() = 0;                   // replaces random_bit()
+    virtual double unit() = 0;                // replaces next_double(rand): value in [0, 1)
+    virtual uint64_t below(uint64_t n) = 0;   // replaces uniform_int_distribution(0, n - 1)(rand)
+  };
+  static thread_local verif_random_source* verif_source = nullptr;
+
+  inline uint32_t verif_random_bit() {
+    return verif_source != nullptr ? (verif_source->bit() ? 1u : 0u) : static_cast<uint32_t>(random_bit());
+  }
+#endif
 }
 
 // utility function to hide unused compiler warning
